@@ -464,6 +464,19 @@ func (c c07Check) determinism(a c07Args, w *Worker, res *UnitResult) {
 			return
 		}
 		c07Apply(A, data, 1)
+		// the restoring node already holds older, volatile versions of the same keys (a lagging follower): the restore
+		// must replace values AND deadlines
+		var stale []Action
+		for _, d := range data {
+			if d.K == "cmd" && strings.EqualFold(d.A[0], "SET") && len(d.A) >= 3 {
+				stale = append(stale, cmd("SET", d.A[1], "stale", "EX", "5000"))
+			} else if d.K == "cmd" && strings.EqualFold(d.A[0], "SELECT") {
+				stale = append(stale, d)
+			}
+		}
+		if sigName == "strings" {
+			c07Apply(B, stale, 1)
+		}
 		err, pan, hang := A.in.Call(func() error { return A.in.db.VerifRaftSnapshotTo(B.in.db) })
 		res.Stats["raft_snapshot_round_trips"]++
 		switch {
@@ -698,6 +711,28 @@ func (c c07Check) cluster(a c07Args, w *Worker, res *UnitResult) {
 					break
 				}
 			}
+		}
+	}
+	// a follower that has just refused or forwarded a client write must still be able to snapshot its state machine
+	// (a flag left raised by the refused write would make the state copy wait for ever and stall the follower)
+	if a.Shard == 0 {
+		for i, n := range []*c07Node{F, R} {
+			if !w.Case("snapshot on the " + names[i+1] + " after a misrouted write") {
+				continue
+			}
+			n.call("SET", fmt.Sprintf("misrouted%d", i), "x")
+			err, pan, hang := n.in.Call(func() error { return n.in.db.VerifRaftTakeSnapshot() })
+			res.Stats["follower_snapshots_after_a_misrouted_write"]++
+			if hang || pan != "" {
+				res.Findings = append(res.Findings, Finding{Prop: "C07", Kind: "follower-snapshot", Sig: "follower-snapshot-after-misrouted-write|" + names[i+1] + "|hang-or-panic",
+					Detail: fmt.Sprintf("the %s answered a client write and then could not take a raft snapshot (hang=%v panic=%s err=%v)", names[i+1], hang, firstLine(pan), err)})
+				res.HangCase = "snapshot on the " + names[i+1] + " after a misrouted write"
+				return
+			}
+		}
+		if !converge(10 * time.Second) {
+			res.Capped = "the cluster did not converge after the follower snapshots"
+			return
 		}
 	}
 	// the same write issued twice through the forwarding follower must be applied twice (gossip forwarding is best
